@@ -137,6 +137,8 @@ class ParallelLoopTrans(LoopTrans, metaclass=abc.ABCMeta):
             while isinstance(cnode, Loop):
                 loop_count += 1
                 # Loops must be tightly nested (no intervening statements)
+                if len(cnode.loop_body.children) != 1:
+                    break
                 cnode = cnode.loop_body[0]
             if collapse > loop_count:
                 raise TransformationError(
